@@ -36,7 +36,9 @@ type cfgSpec struct {
 	ext       bool // runtime-config enabled: app/ts-sql registers GET /runtime_config on the handler
 }
 
-func (c cfgSpec) op() string { return "cfg=" + b01(c.logKeeper) + b01(c.flux) + b01(c.pprof) + b01(c.ext) }
+func (c cfgSpec) op() string {
+	return "cfg=" + b01(c.logKeeper) + b01(c.flux) + b01(c.pprof) + b01(c.ext)
+}
 
 // env is one in-process server front end: the real httpd.Handler over the real
 // metaclient.Client (authentication, privileges) with recording doubles behind it.
